@@ -208,7 +208,7 @@ pub fn run(ctx: Ctx) -> i32 {
         ctx.replay_only(&["text", "width", "format"], &case);
     }
     let texts = spec_texts(ctx.quick());
-    let inputs = all_inputs(3, if ctx.quick() { 3 } else { 4 });
+    let inputs = all_inputs(3, if ctx.quick() { 3 } else { 6 });
     let mut total = texts
         .par_iter()
         .map(|(t, yk, what)| {
